@@ -757,9 +757,13 @@ func (g *c10Gen) host() string {
 }
 
 // longMAC: now and then a reservation is for a client with an 8- or 20-byte
-// hardware address, or one of a length ValidateMAC refuses.  (Such clients
-// send no messages in the random histories.)
+// hardware address, or one of a length ValidateMAC refuses.  (Client 5, 8
+// bytes, also sends messages in some histories.)
 func (g *c10Gen) longMAC(o *c10Op) {
+	if o.Mac == 5 {
+		o.MacLen = 8
+		return
+	}
 	if g.r.Chance(1, 5) {
 		k := g.r.Intn(3)
 		o.Mac, o.MacLen = uint64(5+k), []int{8, 20, 7}[k]
@@ -776,6 +780,9 @@ func (g *c10Gen) ipFor(mac uint64) uint32 {
 func (g *c10Gen) op() (o c10Op) {
 	mac := vfPick(g.r, g.macs)
 	o.Mac = mac
+	if mac == 5 {
+		o.MacLen = 8 // client 5 has an 8-byte hardware address
+	}
 	switch x := g.r.Intn(100); {
 	case x < 24:
 		o.Kind = c10Discover
@@ -841,16 +848,16 @@ func (g *c10Gen) op() (o c10Op) {
 		o.IP, o.Host = g.ipFor(o.Mac), g.host()
 	case x < 92 || (x < 95 && !g.probe):
 		o.Kind = c10Tick
-		o.Mac = 0
+		o.Mac, o.MacLen = 0, 0
 		o.Delta = int64(g.conf.LeaseSec/4) * int64(1+g.r.Intn(5))
 	case x < 95:
 		o.Kind = c10Busy
-		o.Mac = 0
+		o.Mac, o.MacLen = 0, 0
 		o.IP = g.conf.Start + uint32(g.r.Intn(int(g.conf.End-g.conf.Start+1)))
 		o.On = g.r.Chance(2, 3)
 	case x < 97:
 		o.Kind = c10SetConfig
-		o.Mac = 0
+		o.Mac, o.MacLen = 0, 0
 		cf := g.conf
 		o.PoolStart, o.PoolEnd = cf.Start, cf.End
 		switch g.r.Intn(8) {
@@ -870,7 +877,7 @@ func (g *c10Gen) op() (o c10Op) {
 		}
 	default:
 		o.Kind = c10Restart
-		o.Mac = 0
+		o.Mac, o.MacLen = 0, 0
 		if g.probe && g.r.Chance(1, 4) {
 			o.ICMP = 1 + g.r.Intn(2)
 		}
@@ -1648,6 +1655,9 @@ func TestVerifC10(t *testing.T) {
 			continue
 		}
 		g := &c10Gen{r: r, conf: cf, macs: m, last: map[uint64]uint32{}, genNames: os.Getenv("VERIF_C10_GENNAMES") != "0"}
+		if r.Fork(55).Chance(1, 3) {
+			g.macs = []uint64{1, 2, 3, 5} // one of the four clients has an 8-byte address
+		}
 		steps := 5 + r.Intn(56)
 		h := c10History{conf: cf, tag: fmt.Sprintf("random-%d", i)}
 		// Half of the histories run with probing (when it is available), with
@@ -1764,14 +1774,14 @@ func c10Prelude(m []uint64) (hs []c10History) {
 		long(st(c10StaticRemove, 5, s, "eui"), 8), restart)
 	add("request-on-expired-lease", disc(1), sel(1, s, "a"), tick(3700), renew(1, s, "a"), tick(3700), reboot(1, s), tick(3700),
 		sel(1, s, "a"), tick(3700), disc(2), disc(3), disc(4), sel(4, s, "d"), renew(1, s, "a"))
-	if os.Getenv("VERIF_C10_MIXED") == "1" {
-		// Outside the assumptions (hist_ok): a client with an 8-byte hardware
-		// address whose first six bytes are client 1's address asks when the pool
-		// is exhausted: reserveLease copies its address into the 6-byte address
-		// of the recycled lease.
+	{
+		// A client with an 8-byte hardware address whose first six bytes are
+		// client 1's address asks when the pool is exhausted and recycles a
+		// 6-byte lease; then a 6-byte client recycles the 8-byte lease.
 		x := c10Op{Kind: c10Discover, Mac: 0x010007, MacLen: 8}
+		xsel := c10Op{Kind: c10Request, Mac: 0x010007, MacLen: 8, HasSID: true, SID: cf.Self, HasReq: true, ReqIP: s + 1, Host: "eui"}
 		add("mixed-hwaddr-lengths", disc(1), sel(1, s, "a"), disc(2), sel(2, s+1, "b"), disc(3), sel(3, s+2, "c"),
-			tick(1800), renew(1, s, "a"), tick(2000), x)
+			tick(1800), renew(1, s, "a"), tick(2000), x, xsel, restart, tick(3700), disc(4), sel(4, s, "d"), disc(2), sel(2, s+1, "b"), restart)
 	}
 	setc := func(a, b uint32) c10Op { return c10Op{Kind: c10SetConfig, PoolStart: a, PoolEnd: b} }
 	add("set-config", disc(1), sel(1, s, "alpha"), st(c10StaticAdd, 2, cf.End+3, "nas"), disc(3), sel(3, s+1, "gamma"),
